@@ -217,14 +217,30 @@ def system_block(model, rep):
         if "parents" in d:
             p = ast.unparse(d["parents"]).replace('"', "'")
             r = sysrules.roles(model)
-            if p.replace(" ", "") != ("[self._g[n]._params['name']forninself.%s[%s]]" % (r["PARENTS"], idx)).replace(" ", ""):
+            lc = d["parents"]
+            good = isinstance(lc, ast.ListComp) and len(lc.generators) == 1 and isinstance(lc.generators[0].target, ast.Name) and not lc.generators[0].ifs
+            if good:
+                v = lc.generators[0].target.id
+                good = ast.unparse(lc.elt).replace('"', "'") == "self._g[%s]._params['name']" % v and ast.unparse(lc.generators[0].iter) == "self.%s[%s]" % (r["PARENTS"], idx)
+            if not good:
                 ok = False
                 rep.violation("R3", "system.System.save", "%s:%d" % (rel, rec.lineno), "the mux inputs are written as %s, not as the names of its priority-ordered parents" % p, "mux parents")
     rep.instance("R3", "system.System.save component records", "%s:%d" % (rel, save.lineno), ok, "%d record sites" % len(recs))
     # _get_applims: own-or-default pair per applicable key, unmodified
     ga = model.own_method("System", "_get_applims")
-    src = ast.unparse(ga).replace('"', "'")
-    ok = "for lim in lims" in src and "limits[lim] = _get_opt(self._g[idx]._limits, lim, LIMITS_DEFAULT[lim])" in src and "lims = self._g[idx]._get_limits()" in src and src.strip().endswith("return limits")
+    IDX = ga.args.args[1].arg
+    ok = False
+    loops = [x for x in ast.walk(ga) if isinstance(x, ast.For) and isinstance(x.target, ast.Name)]
+    rets = [x for x in ast.walk(ga) if isinstance(x, ast.Return)]
+    if len(loops) == 1 and len(rets) == 1 and isinstance(rets[0].value, ast.Name) and len(loops[0].body) == 1 and isinstance(loops[0].body[0], ast.Assign):
+        lp, k, out = loops[0], loops[0].target.id, rets[0].value.id
+        itsrc = ast.unparse(lp.iter)
+        if isinstance(lp.iter, ast.Name):
+            d_ = [x for x in ast.walk(ga) if isinstance(x, ast.Assign) and is_name(x.targets[0], lp.iter.id)]
+            itsrc = ast.unparse(d_[0].value) if d_ else itsrc
+        st_ = lp.body[0]
+        ok = itsrc == "self._g[%s]._get_limits()" % IDX and ast.unparse(st_.targets[0]) == "%s[%s]" % (out, k) and \
+            ast.unparse(st_.value).replace(" ", "") == "_get_opt(self._g[%s]._limits,%s,LIMITS_DEFAULT[%s])" % (IDX, k, k)
     if not ok:
         rep.violation("R3", "system.System._get_applims", "%s:%d" % (rel, ga.lineno), "the saved limits are not, per applicable key, the component's own pair (or the default) unmodified", "applims")
     rep.instance("R3", "system.System._get_applims", "%s:%d" % (rel, ga.lineno), ok)
@@ -232,7 +248,8 @@ def system_block(model, rep):
     src = ast.unparse(load).replace('"', "'")
     ok = "self.add_comp(sys[entires[e]]['parents'], comp=PMux(" in src.replace("\n", "").replace("  ", "")
     if not ok:
-        ok = any(isinstance(x, ast.Call) and ast.unparse(x.func) == "self.add_comp" and x.args and ast.unparse(x.args[0]).replace('"', "'").endswith("['parents']") for x in ast.walk(load))
+        ok = any(isinstance(x, ast.Call) and isinstance(x.func, ast.Attribute) and x.func.attr == "add_comp" and x.args and ast.unparse(x.args[0]).replace('"', "'").endswith("['parents']")
+                 and any(k.arg == "comp" and isinstance(k.value, ast.Call) and is_name(k.value.func, "PMux") for k in x.keywords) for x in ast.walk(load))
     if not ok:
         rep.violation("R3", "system.System.from_file", "%s:%d" % (rel, load.lineno), "the saved mux inputs are not handed to add_comp as its parent list", "mux parents read")
     rep.instance("R3", "system.System.from_file mux inputs", "%s:%d" % (rel, load.lineno), ok)
@@ -243,18 +260,20 @@ def version_gate(model, rep):
     load = model.own_method("System", "from_file")
     ok = False
     gate_line = None
+    vers = [x.targets[0].id for x in ast.walk(load) if isinstance(x, ast.Assign) and isinstance(x.targets[0], ast.Name) and isinstance(x.value, ast.Call)
+            and is_name(x.value.func, "_get_mand") and len(x.value.args) == 2 and isinstance(x.value.args[1], ast.Constant) and x.value.args[1].value == "version"]
+    VER = vers[0] if vers else "ver"
     for x in ast.walk(load):
         if isinstance(x, ast.If) and any(isinstance(b, ast.Raise) and "ValueError" in ast.unparse(b) for b in x.body):
             t = ast.unparse(x.test).replace(" ", "")
-            if t in ("version.parse(sysloss.__version__)<version.parse(ver)", "version.parse(ver)>version.parse(sysloss.__version__)"):
+            if t in ("version.parse(sysloss.__version__)<version.parse(%s)" % VER, "version.parse(%s)>version.parse(sysloss.__version__)" % VER):
                 ok = True
                 gate_line = x.lineno
     first_build = min([x.lineno for x in ast.walk(load) if isinstance(x, ast.Call) and (is_name(x.func, "cls") or (isinstance(x.func, ast.Name) and x.func.id in KINDS))] or [0])
     if ok and not (gate_line < first_build):
         ok = False
     # `ver` must be the saved version
-    src = ast.unparse(load).replace('"', "'")
-    if "ver = _get_mand(sysparams, 'version')" not in src:
+    if not vers:
         ok = False
     if not ok:
         rep.violation("R4", "system.System.from_file", "%s:%d" % (rel, load.lineno), "a file written by a newer version is not refused with ValueError before anything is built (test must be parse(current) < parse(file version))", "version gate")
